@@ -54,8 +54,13 @@ type c18Conn struct {
 	pos    int
 	zero   bool
 	zeroNx bool
-	wrote  []byte
-	closes int
+	// eofLast: the Read call that delivers the last bytes of data also reports io.EOF (n > 0
+	// together with io.EOF; legal for io.Reader, done by TLS conns, pipes and wrapped conns).
+	// Added after the independently seeded change C18-10 (hand-written relay loop that checks the
+	// Read error before using the bytes returned by the same call).
+	eofLast bool
+	wrote   []byte
+	closes  int
 }
 
 func (c *c18Conn) Read(p []byte) (int, error) {
@@ -85,6 +90,9 @@ func (c *c18Conn) Read(p []byte) (int, error) {
 	}
 	n := copy(p, c.data[c.pos:end])
 	c.pos += n
+	if c.eofLast && c.pos == len(c.data) {
+		return n, io.EOF
+	}
 	return n, nil
 }
 
@@ -236,6 +244,9 @@ type c18Case struct {
 	Warm bool `json:"after_another_connection_authenticated,omitempty"`
 	// Extra: index into c18Extras, a framing header field after the Proxy-Authorization lines
 	Extra int `json:"framing_header,omitempty"`
+	// EOFLast: the client connection reports io.EOF in the same Read call that returns the last
+	// bytes of the stream (instead of a separate (0, io.EOF) afterwards)
+	EOFLast bool `json:"eof_with_last_bytes,omitempty"`
 }
 
 func (c *c18Case) desc() string {
@@ -292,7 +303,7 @@ func c18HTTPRunInner(c *c18Case) (string, string) {
 		log.ev = nil
 		log.mu.Unlock()
 	}
-	conn := &c18Conn{data: stream, cuts: c.Cuts, zero: c.Zero}
+	conn := &c18Conn{data: stream, cuts: c.Cuts, zero: c.Zero, eofLast: c.EOFLast}
 	s.dispatch(conn)
 	if s.httpClient != nil {
 		s.httpClient.CloseIdleConnections()
@@ -422,7 +433,7 @@ type c18HTTPEnum struct {
 func (x *c18HTTPEnum) one(p *evidence.Part, c *c18Case) {
 	p.Evaluations++
 	clause, detail := c18HTTPRun(c)
-	p.Class(c.Kind, c.Variant, c.Body, c.Trunc >= 0, len(c.Cuts) > 2, len(c.Cuts), c.Zero, c.Auth, c.Extra, clause)
+	p.Class(c.Kind, c.Variant, c.Body, c.Trunc >= 0, len(c.Cuts) > 2, len(c.Cuts), c.Zero, c.Auth, c.Extra, c.EOFLast, clause)
 	if p.Evaluations%1009 == 5 {
 		cc := *c
 		cc.Desc = c.desc()
@@ -437,6 +448,9 @@ func (x *c18HTTPEnum) one(p *evidence.Part, c *c18Case) {
 		cc := *c
 		cc.Desc = c.desc()
 		sig := fmt.Sprintf("%s/%s/%s,body=%d,trunc=%d,cuts=%v,zero=%v,auth=%v", p.Name, clause, cc.Desc, c.Body, c.Trunc, c.Cuts, c.Zero, c.Auth)
+		if c.EOFLast {
+			sig += ",eof-with-last-bytes"
+		}
 		x.sh.Violate(p.Name, sig, detail, &cc)
 	}
 }
@@ -653,10 +667,87 @@ func c18HTTPEnumerate(sh *evidence.Shard) {
 		p3.Exhaustive = false
 		p3.Note("deadline reached inside the framing-header enumeration")
 	}
+
+	// End of the client stream reported together with its last bytes: the scripted connection
+	// returns (n > 0, io.EOF) from the Read call that delivers the tail of the stream, wherever
+	// that tail starts (inside the header, at the header end - so the pipelined bytes are buffered
+	// behind the header and travel through cachedConn - or inside the pipelined bytes, so the tail
+	// is read by the relay itself). Same clauses as above; in particular relay-not-intact: every
+	// byte behind the CONNECT header reaches the upstream, in order.
+	// Added after the independently seeded change C18-10 (io.Copy replaced by a hand-written relay
+	// loop that drops the bytes a Read call returns together with io.EOF or an error).
+	p4 := sh.Part("http-eof-with-last-bytes", "enum")
+	p4.Alphabet = map[string]any{"requests": knames, "proxy_authorization": vnames, "pipelined_body_len": []int{0, 1, 5, 9}, "framing_header_after_credentials": []string{c18Extras[0].Name, c18Extras[3].Name}, "end_of_stream": "Read returns the last chunk of the stream together with io.EOF (n > 0, io.EOF)", "auth": alphabet["auth"]}
+	if th {
+		p4.Bounds = map[string]any{"truncations": "every offset", "cuts": "<=2 over boundary offsets, plus byte-at-a-time", "zero_reads": []bool{false, true}}
+	} else {
+		p4.Bounds = map[string]any{"truncations": "every offset", "cuts": "<=1 over boundary offsets (line ends -1..+3, separators, header end -3.., every body offset), plus byte-at-a-time", "zero_reads": []bool{false, true}}
+	}
+	for ki := range c18Kinds {
+		for _, ei := range []int{0, 3} {
+			for vi := range c18AuthVariants {
+				for bi := range c18Bodies {
+					for _, auth := range []bool{true, false} {
+						if mine() {
+							x.one(p4, &c18Case{Kind: ki, Variant: vi, Body: bi, Trunc: -1, Auth: auth, Extra: ei, EOFLast: true})
+						}
+					}
+					if mine() {
+						x.one(p4, &c18Case{Kind: ki, Variant: vi, Body: bi, Trunc: -1, Auth: true, Warm: true, Extra: ei, EOFLast: true})
+					}
+					base := c18Case{Kind: ki, Variant: vi, Body: bi, Trunc: -1, Auth: true, Extra: ei, EOFLast: true}
+					hdr := base.header()
+					n := len(base.stream())
+					if bi == len(c18Bodies)-1 {
+						for l := 0; l < n; l++ {
+							if mine() {
+								cc := base
+								cc.Trunc = l
+								x.one(p4, &cc)
+							}
+						}
+					}
+					run := func(cuts []int) {
+						for _, z := range []bool{false, true} {
+							if !mine() {
+								continue
+							}
+							cc := base
+							cc.Cuts = append([]int(nil), cuts...)
+							cc.Zero = z
+							x.one(p4, &cc)
+						}
+					}
+					offs := c18Offsets(hdr, n)
+					for i, a := range offs {
+						run([]int{a})
+						if !th {
+							continue
+						}
+						for _, b := range offs[i+1:] {
+							run([]int{a, b})
+						}
+					}
+					all := make([]int, 0, n)
+					for o := 1; o < n; o++ {
+						all = append(all, o)
+					}
+					run(all)
+				}
+				if expired {
+					break
+				}
+			}
+		}
+	}
+	if expired {
+		p4.Exhaustive = false
+		p4.Note("deadline reached inside the eof-with-last-bytes enumeration")
+	}
 }
 
 func c18HTTPReplay(part string, raw json.RawMessage) (bool, bool, string) {
-	if part != "http-whole-and-truncated" && part != "http-chunkings" && part != "http-framing-headers" {
+	if part != "http-whole-and-truncated" && part != "http-chunkings" && part != "http-framing-headers" && part != "http-eof-with-last-bytes" {
 		return false, false, ""
 	}
 	var c c18Case
